@@ -18,14 +18,14 @@ RULE = ("one farm run = a batch of %d generated stochastic model programs (handl
         "draw delays and observations from 12 distribution types on 1-3 shared seeded "
         "MersenneTwister streams, fire user event types to 2-4 listeners each with "
         "default identity hash; listeners draw from the same streams, schedule events "
-        "and observe into simulation statistics) executed in 8 child interpreters, "
+        "and observe into simulation statistics) executed in 10 child interpreters, "
         "one per perturbation: PYTHONHASHSEED in {0, 1, 4242, seed-drawn, random}, "
         "SimEvent id offset (10^n earlier events), heap noise (garbage allocated first "
         "so object addresses differ), unrelated EventTypes created first, gc off, "
         "thread schedule seed and virtual-time speed of the baton scheduler, and pause "
-        "pattern (none / k steps / pauses requested by handlers). Oracle: the digest of "
+        "pattern (none / k steps / pauses requested by handlers / stop() by the caller thread at seeded points of the run thread / stop() from a TIME_CHANGED listener). Oracle: the digest of "
         "(executed events with clocks, user-event deliveries, every draw, every "
-        "statistics getter as hex float, final state) is identical in all 8 children; "
+        "statistics getter as hex float, final state) is identical in all 10 children; "
         "the simulator notification stream is additionally identical among children "
         "with the same pause pattern. non-trivial = a model with at least 2 listeners "
         "on one type and at least 5 draws; distinct = digest of the model" % BATCH)
@@ -110,6 +110,12 @@ def generate(seed, tier, idx=0):
          "pause_at": sorted(set(rng.randint(1, 12) for _ in range(3)))},
         {"hashseed": "99", "pause": "pauses", "pause_at": [1, 2, 3], "gc_off": True,
          "sched": {"kind": "pct", "seed": s1 + 2, "p": 0.01, "d": 2, "step_cost_us": 1}},
+        {"hashseed": "5", "pause": "driver_stops",
+         "sleeps": [rng.choice([0.0002, 0.0005, 0.001, 0.002, 0.004]) for _ in range(3)],
+         "sched": {"kind": rng.choice(["pct", "site"]), "seed": s1 + 3, "p": 0.02, "q": 0.3,
+                   "d": 3, "step_cost_us": rng.choice([10, 100])}},
+        {"hashseed": "random", "pause": "listener_stops",
+         "occurrences": sorted(set(rng.randint(1, 8) for _ in range(3)))},
     ]
     return {"models": models, "perturbs": perturbs}
 
